@@ -11,6 +11,7 @@ pub mod c08;
 pub mod c09;
 pub mod c10;
 pub mod c11;
+pub mod c12;
 
 use crate::ctx::Ctx;
 use crate::report::Report;
@@ -29,6 +30,7 @@ pub fn dispatch(ctx: &Ctx, rep: &mut Report) -> bool {
         "C09" => c09::run(ctx, rep),
         "C10" => c10::run(ctx, rep),
         "C11" => c11::run(ctx, rep),
+        "C12" => c12::run(ctx, rep),
         _ => return false,
     }
     true
